@@ -55,6 +55,14 @@ class Array(Function):
             Function('ARRAY(').ast(tokens, stack, builder, check_n=check_n)
             Function('ARRAY(').ast(tokens, stack, builder, check_n=check_n)
         else:
+            # `;` and `}` are valid only inside the innermost array literal.
+            i = len(stack) - 1
+            while i > 0 and not isinstance(stack[i], Parenthesis):
+                i -= 1
+            if i < 1 or not isinstance(stack[i - 1], Function) or \
+                    stack[i - 1].name != 'ARRAY':
+                from ..errors import ParenthesesError
+                raise ParenthesesError()
             token = Parenthesis(')')
             token.ast(tokens, stack, builder)
             if self.has_sep:
